@@ -70,6 +70,7 @@ def generate(rng, prop, tier):
                          'noise': {'imports': rng.sample(NOISE_IMPORTS, rng.randint(0, 3)),
                                    'junk_objects': rng.choice([0, 0, 50, 500]),
                                    'subdir': rng.chance(0.3),
+                                   'sibling_first': rng.chance(0.3),
                                    'other_first': [rng.choice(POOL_HASHABLE[:10]) for _ in range(rng.randint(0, 3))]}})
     # ignore specifications: the names _keygen substitutes for ignored arguments must not make the key depend
     # on the session (iteration order of a set of names is hash-seed dependent)
@@ -189,7 +190,12 @@ def simplify(case):
     for i, s in enumerate(case['sessions']):
         if s['noise']['imports'] or s['noise']['junk_objects'] or s['noise'].get('subdir') or s['noise']['other_first']:
             c = _copy.deepcopy(case)
-            c['sessions'][i]['noise'] = {'imports': [], 'junk_objects': 0, 'subdir': False, 'other_first': []}
+            c['sessions'][i]['noise'] = {'imports': [], 'junk_objects': 0, 'subdir': False, 'other_first': [],
+                                          'sibling_first': s['noise'].get('sibling_first', False)}
+            yield c
+        if s['noise'].get('sibling_first'):
+            c = _copy.deepcopy(case)
+            c['sessions'][i]['noise']['sibling_first'] = False
             yield c
     if case['module'] != 'std':
         c = _copy.deepcopy(case)
